@@ -23,10 +23,22 @@ by the block's write-back.
       server adapter whose get_state_store() calls ``create_state_store`` (workflows/runtime/types/step_function.py,
       server/_runtime/server_runtime.py), so two concurrent steps of one run hold two store objects.
 
+* R3  (registry retention) where the lock comes from a registry (R2 "registry"), the construct that maps the
+      (database, run) key to the lock must hand every accessor the SAME lock object for as long as any of them can
+      hold it: it may drop an entry only when no reference to the lock is left (a weak-value mapping) or never (a
+      plain dict / defaultdict nobody removes from; ``functools.cache`` / ``lru_cache(maxsize=None)`` on the
+      provider).  A bounded cache (``lru_cache`` with its default or a numeric ``maxsize``, a cachetools-style
+      LRU/TTL cache, a mapping constructed with maxsize= / maxlen= / ttl=) or a strong mapping some code removes from
+      (pop / popitem / clear / del / re-binding) evicts a lock that a suspended ``edit_state`` block still holds:
+      the next store object of the run creates a fresh lock and the two interleave load-modify-save.  Decided from
+      the construct only (decorator of the provider, constructor of the container, removal calls on it in the
+      defining module); a memoising decorator also is what makes a bare ``return Lock()`` provider a registry at
+      all — without one the provider is classified per-instance (R2).
+
 Dropped: the design's R3 ("no suspension point inside a critical section other than the yield") is not a
 necessary condition (awaiting while holding the lock is safe); its useful part — the region must stay open
 across the yield and cover the load before and the save after it — is what R1's single-region clause decides.
-Not decided: writers in other processes, fairness of asyncio.Lock, stores other than the two anchored ones
+Not decided: removals from the registry through an alias passed to other modules; writers in other processes, fairness of asyncio.Lock, stores other than the two anchored ones
 (Postgres / agent-data stores are analysed with the same matcher and reported as observations only).
 """
 
@@ -34,10 +46,10 @@ from __future__ import annotations
 
 import ast
 
-from ..astx import call_name, calls, dotted, enclosing_stmt, expand, facts_at, last
+from ..astx import call_name, calls, dotted, enclosing_stmt, expand, facts_at, kwarg, last, reaching_def
 from ..cfg import CFG
 from ..index import AnchorError, FuncNode, Module, Repo, ancestors, enclosing_function, parent, walk_shallow
-from ..selftest import Twin
+from ..selftest import Twin, multi
 
 EXPLANATION = (
     "Lock-discipline rules over InMemoryStateStore (workflows/context/state_store.py) and SqliteStateStore "
@@ -47,7 +59,10 @@ EXPLANATION = (
     "region open across its yield, so any writer outside the lock can be overwritten by a suspended edit block. "
     "R2: the lock is shared by all store objects of one run: not per-instance (registry / injected), or every create_state_store factory memoises "
     "one instance per run id. Every step invocation obtains its store through a fresh adapter -> create_state_store, so a per-instance lock on "
-    "per-call instances excludes nothing. NOT decided: cross-process writers, fairness, stores other than the two anchored (observations only); "
+    "per-call instances excludes nothing. R3: a lock registry (the construct that maps (database, run) to the lock) never drops a lock that can "
+    "still be referenced: weak-value mapping, or a strong mapping nothing removes from, or an unbounded memo (functools.cache, lru_cache(maxsize=None)); "
+    "a bounded cache (lru_cache default/numeric maxsize, LRU/TTL cache classes, maxsize=/maxlen=/ttl= containers) or pop/popitem/clear/del on the "
+    "mapping evicts a lock that a suspended edit block still holds, and the next store object of the run locks a fresh one. NOT decided: cross-process writers, fairness, stores other than the two anchored (observations only); "
     "`clear` is outside the statement's operation list and is an observation."
 )
 TRUSTED = ["CPython ast", "asyncio.Lock mutual exclusion", "asyncio tasks switch only at await / async with / async for / yield"]
@@ -146,7 +161,9 @@ class Store:
         if isinstance(v, ast.Call):
             nm = call_name(v)
             if nm and "." not in nm and nm in self.m.functions:
-                return "registry"  # module-level lock provider (one call deep, contains the Lock() constructor)
+                # module-level lock provider (one call deep, contains the Lock() constructor): a registry only when it
+                # looks the lock up in a shared container or is memoised; a bare `return Lock()` is a fresh lock per call
+                return self._producer_kind(self.m.functions[nm], 0)
         raise AnchorError(f"C20: cannot classify the lock expression `{ast.unparse(v)[:80]}` of {self.name}")
 
     def _class_level(self, attr: str) -> bool:
@@ -165,6 +182,9 @@ class Store:
             return self._class_level(a)
         if isinstance(owner, ast.Name):
             local = any(isinstance(n, ast.Name) and n.id == owner.id and isinstance(n.ctx, ast.Store) for n in ast.walk(fn))
+            if local:
+                x = self._unalias(owner)
+                return x is not owner and self._shared_container(x, fn)
             return not local
         if isinstance(owner, ast.Attribute):
             base = owner.value
@@ -176,12 +196,22 @@ class Store:
                 return True
         return False
 
+    @staticmethod
+    def _unalias(owner: ast.AST) -> ast.AST:
+        """A local name that is a straight-line alias of another expression -> that expression."""
+        if not isinstance(owner, ast.Name) or parent(owner) is None:
+            return owner
+        x = reaching_def(owner.id, owner)  # in-place mutation of the alias is mutation of the container itself: fine here
+        return x if isinstance(x, (ast.Name, ast.Attribute)) else owner
+
     def _producer_kind(self, fn: ast.AST, depth: int = 1) -> str:
         """How the lock returned by this provider comes to exist.  Registry evidence: the provider stores into /
         looks up a container that outlives the instance (subscript store, setdefault, get, subscript load)."""
         rets = [n for n in walk_shallow(fn) if isinstance(n, ast.Return) and n.value is not None]
         if not rets:
             raise AnchorError(f"C20: lock provider {self.name}.{fn.name} returns nothing")
+        if self._memo(fn) is not None:
+            return "registry"  # the memo table of the decorator is the registry; R3 decides whether it may evict
         registry = False
         for n in walk_shallow(fn):
             if isinstance(n, ast.Subscript) and self._shared_container(n.value, fn):
@@ -199,6 +229,170 @@ class Store:
             return "per-instance"
         kinds = {self._value_kind(expand(r.value, r)) for r in rets}
         return "per-instance" if "per-instance" in kinds else sorted(kinds)[0]
+
+    # ------------------------------------------------------------ R3: registry constructs
+    def _const(self, e: ast.AST, depth: int = 2):
+        """Value of a literal / module-level constant / small arithmetic over them; raises AnchorError otherwise."""
+        if isinstance(e, ast.Constant):
+            return e.value
+        if isinstance(e, ast.UnaryOp) and isinstance(e.op, ast.USub):
+            return -self._const(e.operand, depth)
+        if isinstance(e, ast.BinOp) and isinstance(e.op, (ast.Add, ast.Sub, ast.Mult, ast.FloorDiv, ast.Pow, ast.LShift)):
+            a, b = self._const(e.left, depth), self._const(e.right, depth)
+            if isinstance(a, int) and isinstance(b, int):
+                return {ast.Add: a + b, ast.Sub: a - b, ast.Mult: a * b, ast.FloorDiv: a // b if b else 0, ast.Pow: a ** min(b, 64), ast.LShift: a << min(b, 64)}[type(e.op)]
+        if isinstance(e, ast.Name) and depth > 0:
+            v = _toplevel_value(self.m.tree.body, e.id)
+            if v is not None:
+                return self._const(v, depth - 1)
+        raise AnchorError(f"C20.R3: cannot evaluate the cache bound `{ast.unparse(e)[:60]}` of {self.name}'s lock registry")
+
+    def _memo(self, fn: ast.AST) -> tuple[bool, ast.AST, str] | None:
+        """Memoising decorator of a lock provider that is keyed by the call arguments (not by the store object):
+        (retains every entry for ever?, decorator node, description); None when the provider is not memoised."""
+        if isinstance(parent(fn), ast.ClassDef):
+            decos = {last(dotted(d.func if isinstance(d, ast.Call) else d)) for d in fn.decorator_list}
+            if not decos & {"staticmethod", "classmethod"}:
+                return None  # keyed by `self` (cached_property / lru_cache on a method): per store object, not a registry
+        for d in fn.decorator_list:
+            nm = last(dotted(d.func if isinstance(d, ast.Call) else d)) or ""
+            if nm in ("staticmethod", "classmethod"):
+                continue
+            if nm == "cache":
+                return True, d, "functools.cache (unbounded)"
+            if nm == "lru_cache":
+                if not isinstance(d, ast.Call):
+                    return False, d, "lru_cache with its default maxsize=128"
+                ms = kwarg(d, "maxsize", 0)
+                if ms is None:
+                    return False, d, "lru_cache with its default maxsize=128"
+                v = self._const(ms)
+                if v is None:
+                    return True, d, "lru_cache(maxsize=None) (unbounded)"
+                return False, d, f"lru_cache(maxsize={v})"
+            if "cache" in nm.lower() or "memo" in nm.lower():
+                raise AnchorError(f"C20.R3: cannot classify the memoising decorator `{ast.unparse(d)[:60]}` of lock provider {fn.name}")
+        return None
+
+    def _container_ref(self, owner: ast.AST, scope: ast.AST) -> tuple[str, str] | None:
+        """('module'|'class', name) of the shared container an expression names."""
+        if not self._shared_container(owner, scope):
+            return None
+        if isinstance(owner, ast.Name):
+            x = self._unalias(owner)
+            if x is not owner:
+                return self._container_ref(x, scope)
+            return "module", owner.id
+        return "class", owner.attr
+
+    def _names_container(self, e: ast.AST, ref: tuple[str, str], at: ast.AST) -> bool:
+        e = self._unalias(e)
+        if ref[0] == "module":
+            return isinstance(e, ast.Name) and e.id == ref[1]
+        return isinstance(e, ast.Attribute) and e.attr == ref[1]
+
+    def registry_constructs(self) -> list[dict]:
+        """Every construct on the way from the store's lock attribute to the Lock() constructor that maps a key to a
+        lock and outlives one store object, with the verdict whether it can drop a lock that is still referenced."""
+        roots: list[tuple[ast.AST, ast.AST]] = []
+        for name, fn in self.methods.items():
+            if name in self.lock_attrs and name not in PUBLIC_OPS and name != "__init__":
+                roots.append((fn, fn))
+        init = self.methods.get("__init__")
+        if init is not None:
+            for n in walk_shallow(init):
+                if isinstance(n, (ast.Assign, ast.AnnAssign)) and n.value is not None:
+                    tgts = n.targets if isinstance(n, ast.Assign) else [n.target]
+                    if any(_self_attr(t) in self.lock_attrs for t in tgts):
+                        roots.append((n.value, init))
+        found: dict[tuple, dict] = {}
+
+        def scan(root: ast.AST, scope: ast.AST, depth: int) -> None:
+            for n in (walk_shallow(root) if isinstance(root, FuncNode) else ast.walk(root)):
+                owner = None
+                if isinstance(n, ast.Subscript):
+                    owner = n.value
+                elif isinstance(n, ast.Call) and isinstance(n.func, ast.Attribute) and n.func.attr in ("setdefault", "get"):
+                    owner = n.func.value
+                if owner is not None:
+                    ref = self._container_ref(owner, scope)
+                    if ref is not None and ref not in found:
+                        found[ref] = self._judge_container(ref, n)
+                if isinstance(n, ast.Call) and depth > 0:
+                    nm = call_name(n)
+                    if nm and "." not in nm and nm in self.m.functions and self._contains_lock_ctor(self.m.functions[nm], 0):
+                        f = self.m.functions[nm]
+                        memo = self._memo(f)
+                        if memo is not None:
+                            keep, deco, text = memo
+                            found.setdefault(("memo", nm), {
+                                "label": f"memo table of {nm}()", "slot": "memo", "node": deco, "fn": f, "ok": keep, "what": text,
+                                "reason": "" if keep else (f"{text} evicts the least recently *looked-up* key even while a store object still holds that lock (is inside "
+                                                           "`async with`): the next store object of the same run gets a fresh Lock and the two interleave load-modify-save")})
+                        else:
+                            scan(f, f, depth - 1)
+
+        for root, scope in roots:
+            scan(root, scope, 1)
+        return list(found.values())
+
+    def _judge_container(self, ref: tuple[str, str], use: ast.AST) -> dict:
+        kind, name = ref
+        body = self.m.tree.body if kind == "module" else self.node.body
+        value = _toplevel_value(body, name)
+        label = f"{name}" if kind == "module" else f"{self.name}.{name}"
+        if value is None:
+            raise AnchorError(f"C20.R3: the lock registry `{label}` of {self.name} is not defined at {kind} level of {self.m.rel}; its retention cannot be decided")
+        res = {"label": f"mapping {label}", "slot": "container", "node": value, "fn": None, "ok": True, "what": "", "reason": ""}
+        ctor = last(call_name(value)) if isinstance(value, ast.Call) else None
+        kws = {k.arg for k in value.keywords} if isinstance(value, ast.Call) else set()
+        if ctor == "WeakValueDictionary":
+            res["what"] = "weak-value mapping (an entry disappears only when no reference to the lock is left)"
+            rem = self._removals(ref)
+            if rem:
+                r = rem[0]
+                res.update(ok=False, node=r, fn=enclosing_function(r), reason=f"`{ast.unparse(enclosing_stmt(r) or r)[:70]}` removes a lock from the registry explicitly while another "
+                           "store object of the run may still reference or hold it: the next store object creates a fresh Lock and the two interleave load-modify-save "
+                           "(leave removal to the weak references)")
+            return res
+        if (ctor in BOUNDED_CTORS or kws & {"maxsize", "maxlen", "ttl"}) and ctor not in STRONG_CTORS:
+            res.update(ok=False, what=f"bounded cache {ctor}", reason=f"`{ast.unparse(value)[:60]}` evicts entries by size / age while a store object can still hold the lock: "
+                       "the next store object of the same run creates a fresh Lock and the two interleave load-modify-save")
+            return res
+        if isinstance(value, (ast.Dict, ast.DictComp)) or ctor in STRONG_CTORS:
+            rem = self._removals(ref)
+            res["what"] = "strong mapping"
+            if rem:
+                r = rem[0]
+                res.update(ok=False, node=r, fn=enclosing_function(r), reason=f"`{ast.unparse(enclosing_stmt(r) or r)[:70]}` removes a lock from the strong registry while another "
+                           "store object of the run may still reference or hold it: the next store object creates a fresh Lock and the two interleave load-modify-save "
+                           "(drop entries only through a weak-value mapping)")
+            else:
+                res["what"] = "strong mapping nothing removes from"
+            return res
+        raise AnchorError(f"C20.R3: cannot classify the lock registry `{label} = {ast.unparse(value)[:60]}` of {self.name}")
+
+    def _removals(self, ref: tuple[str, str]) -> list[ast.AST]:
+        out: list[ast.AST] = []
+        for n in ast.walk(self.m.tree):
+            if isinstance(n, ast.Call) and isinstance(n.func, ast.Attribute) and n.func.attr in ("pop", "popitem", "clear") and self._names_container(n.func.value, ref, n):
+                out.append(n)
+            elif isinstance(n, ast.Delete):
+                for t in n.targets:
+                    if isinstance(t, ast.Subscript) and self._names_container(t.value, ref, n):
+                        out.append(n)
+                    elif self._names_container(t, ref, n) and enclosing_function(n) is not None:
+                        out.append(n)
+            elif isinstance(n, (ast.Assign, ast.AnnAssign, ast.AugAssign)) and enclosing_function(n) is not None:
+                tgts = n.targets if isinstance(n, ast.Assign) else [n.target]
+                for t in tgts:
+                    if ref[0] == "module" and isinstance(t, ast.Name) and t.id == ref[1]:
+                        f = enclosing_function(n)
+                        if any(isinstance(g, ast.Global) and ref[1] in g.names for g in ast.walk(f)):
+                            out.append(n)
+                    elif ref[0] == "class" and isinstance(t, ast.Attribute) and t.attr == ref[1]:
+                        out.append(n)
+        return sorted(out, key=lambda x: (x.lineno, x.col_offset))
 
     # ------------------------------------------------------------ state inventory
     def _state_fields(self) -> set[str]:
@@ -297,6 +491,21 @@ class Store:
             second = sorted(regions.values(), key=lambda r: r.lineno)[1]
             return False, "state accesses are spread over %d separate lock regions: the lock is released between read and write-back" % len(regions), second, []
         return True, "", fn, []
+
+
+STRONG_CTORS = {"dict", "defaultdict", "OrderedDict"}
+BOUNDED_CTORS = {"LRUCache", "TTLCache", "LFUCache", "FIFOCache", "RRCache", "MRUCache", "TLRUCache", "ExpiringDict"}
+
+
+def _toplevel_value(body: list[ast.stmt], name: str) -> ast.AST | None:
+    """Value of the (last) plain assignment `name = <value>` among the statements of a module / class body."""
+    val = None
+    for st in body:
+        if isinstance(st, ast.Assign) and any(isinstance(t, ast.Name) and t.id == name for t in st.targets):
+            val = st.value
+        elif isinstance(st, ast.AnnAssign) and isinstance(st.target, ast.Name) and st.target.id == name and st.value is not None:
+            val = st.value
+    return val
 
 
 # ----------------------------------------------------------------------------------------------- R2: factories
@@ -443,6 +652,24 @@ def run(chk) -> None:
                    "lock different locks and exclude nothing") if fails else "", path=path if fails else [])
     chk.floor("C20.R2", "create_state_store factories constructing an anchored store", n_fact, 2)
 
+    # ---------------------------------------------------------------- R3
+    n_reg = 0
+    for st in stores:
+        if st.lock_kind != "registry":
+            continue
+        cons = st.registry_constructs()
+        if not cons:
+            raise AnchorError(f"C20.R3: {st.name}'s lock is classified as a registry lock but no key -> lock construct was found")
+        for c in cons:
+            n_reg += 1
+            chk.ob("C20.R3", f"{st.name}: the key -> lock registry ({c['label']}: {c['what']}) never drops a lock that can still be referenced", c["ok"],
+                   m=st.m, node=c["node"], fn=c["fn"], instance=f"{st.name}:lock-registry:{c['slot']}", reason=c["reason"])
+    if any(st.lock_kind == "registry" for st in stores):
+        chk.floor("C20.R3", "key -> lock registries classified", n_reg, 1)
+    else:
+        # no anchored store takes its lock from a registry: lock identity is then R2's memoised-factory obligation alone
+        chk.observe("C20.R3: no anchored store takes its lock from a registry (today SqliteStateStore does); lock identity rests on R2 only.")
+
     # ---------------------------------------------------------------- observations: other stores, other construction sites
     for m in sorted(repo.by_rel.values(), key=lambda x: x.rel):
         for q, c in m.classes.items():
@@ -491,7 +718,37 @@ _SET_STATE_NOW = '        async with self._lock:\n            current_state = se
 _SET_STATE_PRE_FIX = '        conn = self._connect()\n        try:\n            cursor = conn.cursor()\n            cursor.execute(\n                "SELECT state_json FROM workflow_state WHERE run_id = ?",\n                (self._run_id,),\n            )\n            row = cursor.fetchone()\n\n            if row is None:\n                self._save_state(state, conn)\n                conn.commit()\n                return\n\n            current_state = self._deserialize_state(row[0])\n            merged = merge_state(current_state, state)\n            self._save_state(merged, conn)  # type: ignore[arg-type]\n            conn.commit()\n        finally:\n            self._release(conn)\n'
 _LOCK_NOW = "        key = (self._db_path, self._run_id)\n        lock = _RUN_LOCKS.get(key)\n        if lock is None:\n            lock = _RUN_LOCKS[key] = asyncio.Lock()\n        return lock\n"
 
+_REG_NOW = "_RUN_LOCKS: weakref.WeakValueDictionary[tuple[str, str], asyncio.Lock] = (\n    weakref.WeakValueDictionary()\n)\n"
+_LOCK_VIA_PROVIDER = "        return _lock_for(self._db_path, self._run_id)\n"
+_PROVIDER = "def _lock_for(db_path: str, run_id: str) -> asyncio.Lock:\n    return asyncio.Lock()\n"
+
+
+def _memo_twin(deco: str, extra: str = "") -> tuple[str, str]:
+    return multi(_PS, [(_REG_NOW, extra + deco + _PROVIDER), (_LOCK_NOW, _LOCK_VIA_PROVIDER)])
+
+
 TWINS = [
+    # ---- R3 breaking: the registry can drop a lock that is still held
+    Twin("seed form: lock registry becomes lru_cache(maxsize=256)", _PS, *_memo_twin("@functools.lru_cache(maxsize=256)\n"), "C20.R3"),
+    Twin("lock registry becomes a bare lru_cache (default maxsize 128)", _PS, *_memo_twin("@functools.lru_cache\n"), "C20.R3"),
+    Twin("lock registry lru_cache bounded through a module constant", _PS, *_memo_twin("@functools.lru_cache(_MAX_RUN_LOCKS)\n", "_MAX_RUN_LOCKS = 4 * 64\n\n\n"), "C20.R3"),
+    Twin("strong dict registry with eviction on size", _PS, *multi(_PS, [
+        (_REG_NOW, "_RUN_LOCKS: dict[tuple[str, str], asyncio.Lock] = {}\n"),
+        (_LOCK_NOW, "        key = (self._db_path, self._run_id)\n        lock = _RUN_LOCKS.get(key)\n        if lock is None:\n            if len(_RUN_LOCKS) >= 256:\n"
+                    "                _RUN_LOCKS.pop(next(iter(_RUN_LOCKS)))\n            lock = _RUN_LOCKS[key] = asyncio.Lock()\n        return lock\n")]), "C20.R3"),
+    Twin("strong dict registry whose entry is deleted after clear()", _PS, *multi(_PS, [
+        (_REG_NOW, "_RUN_LOCKS: dict[tuple[str, str], asyncio.Lock] = {}\n"),
+        ("        await self.set_state(create_cleared_state(self.state_type))\n", "        await self.set_state(create_cleared_state(self.state_type))\n        del _RUN_LOCKS[(self._db_path, self._run_id)]\n")]), "C20.R3"),
+    Twin("registry becomes a TTL cache", _PS, _REG_NOW, "_RUN_LOCKS = TTLCache(maxsize=1024, ttl=600)\n", "C20.R3"),
+    Twin("provider without any memo hands out a fresh lock per call", _PS, *_memo_twin(""), "C20.R2"),
+    # ---- R3 benign: registries that never drop a referenced lock
+    Twin("benign: lock registry through functools.cache", _PS, *_memo_twin("@functools.cache\n"), None),
+    Twin("benign: lock registry through lru_cache(maxsize=None)", _PS, *_memo_twin("@functools.lru_cache(maxsize=None)\n"), None),
+    Twin("benign: strong dict registry nothing removes from", _PS, _REG_NOW, "_RUN_LOCKS: dict[tuple[str, str], asyncio.Lock] = {}\n", None),
+    Twin("weak registry entry popped explicitly in clear()", _PS, "        await self.set_state(create_cleared_state(self.state_type))\n",
+         "        await self.set_state(create_cleared_state(self.state_type))\n        _RUN_LOCKS.pop((self._db_path, self._run_id), None)\n", "C20.R3"),
+    Twin("benign: weak registry read through a local alias of the key", _PS, _LOCK_NOW,
+         "        locks = _RUN_LOCKS\n        key = (self._db_path, self._run_id)\n        lock = locks.get(key)\n        if lock is None:\n            lock = asyncio.Lock()\n            locks[key] = lock\n        return lock\n", None),
     # ---- R1 breaking
     Twin("memory set without the lock", _PM, "        async with self._lock:\n            set_by_path(self._state, path, value)", "        set_by_path(self._state, path, value)", "C20.R1"),
     Twin("memory set_state without the lock", _PM, "        async with self._lock:\n            self._state = merge_state(self._state, state)",
